@@ -141,6 +141,27 @@ func init() {
 					}
 				}
 			}
+			// claims-sets whose only defect is not on the wire: the instance validates against another canonical name
+			// (a derived profile embedding the built-in type, a hand-made struct literal) while the profile claim it carries
+			// is a registered one or absent - invalid in memory, conformant once encoded and decoded again
+			for _, canon := range []string{"", "http://example.com/derived/" + p, map[string]string{"P1": canonOf["P2"], "P2": canonOf["P1"]}[p]} {
+				for _, kind := range []string{"full", "minimal", "nosw"} {
+					for _, prof := range []string{"keep", "absent", "canon"} {
+						s := bases[kind].clone()
+						s.Canon = canon
+						switch prof {
+						case "absent":
+							delete(s.Vals, "profile")
+						case "canon":
+							if canon == "" || !strings.HasPrefix(canon, "http") {
+								continue
+							}
+							s.Vals["profile"] = V{K: "prof", S: []any{canon}}
+						}
+						run("derived:"+kind, s)
+					}
+				}
+			}
 			for i, c1 := range d.Order {
 				for _, c2 := range d.Order[i+1:] {
 					for _, a1 := range d.alts(p, c1) {
